@@ -292,6 +292,12 @@ func (fc *followerController) NewTerm(req *proto.NewTermRequest) (*proto.NewTerm
 	fc.status = proto.ServingStatus_FENCED
 	fc.closeStreamNoMutex(nil)
 
+	// Make sure all the appended entries are synced, so that the head entry
+	// we report is the actual end of the log
+	if err := fc.wal.Sync(context.Background()); err != nil {
+		return nil, err
+	}
+
 	lastEntryId, err := getLastEntryIdInWal(fc.wal)
 	if err != nil {
 		fc.log.Warn(
